@@ -2,7 +2,7 @@ SPECIFICATION FairSpec
 CONSTANTS
   MaxPages = 3
   MaxRows = 2
-  Quarters = {0, 2, 4}
+  Quarters = {0, 2}
   Kinds = {"Scan", "Scanner", "MapScan", "SliceMap"}
   ManualQuarters = {1}
   Plans <- PlansReexec
